@@ -175,6 +175,17 @@ def make_main(tpl, body):
 
 # ---------------------------------------------------------------- source_test! harvesting
 
+def strip_expectations(text):
+    """What tests/integration_impl/parse_errors.rs::parse_expected_diagnostics does to a source or
+    mapfile before handing it to the CLI: cut each line at `//~` and trim trailing whitespace."""
+    out = []
+    for line in text.split('\n'):
+        i = line.find('//~')
+        if i >= 0: line = line[:i]
+        out.append(line.rstrip() if i >= 0 else line)
+    return '\n'.join(out)
+
+
 def eval_string(expr, consts):
     e = strip_comments(expr).strip()
     if not e: return None
@@ -274,7 +285,9 @@ def harvest_file(path, fmts, stats):
             text = "%s\n%s\n%s" % (f['script_head'], items_txt or '', make_main(f['main_tpl'], main_body or ''))
         else:
             stats['no_source'] += 1; continue
-        item['source'] = text
+        item['source'] = strip_expectations(text)
+        for k in ('mapfiles', 'compile_mapfiles', 'decompile_mapfiles'):
+            item[k] = [strip_expectations(t) for t in item[k]]
         items.append(item)
         stats['harvested'] += 1
     return items
